@@ -3,8 +3,8 @@ ID = 'C11'
 LEVEL = 'exploration'
 LEVEL_TEXT = ('bounded: every public mutator of every DOM class (enumerated mechanically from the class ASTs) is called in raising mode with inputs built to be rejected immediately, '
               'after an acceptable prefix, inside a nested object or by position (hand-written tables, plus: the well-formed text of every rule kind given to the cssText setter of every rule kind - unknown at-rules with the '
-              'same and with another at-keyword -, and every codec Python ships given as new @charset encoding through CSSCharsetRule.encoding / .cssText and CSSStyleSheet.encoding), on every reachable target of a fixed set of prior sheets and on detached objects; after each call that '
-              'raised xml.dom.DOMException the snapshot (cssText of target / owner rule / sheet, rule types, property list, selector list, media list, namespaces; the serialisation also under every '
+              'same and with another at-keyword -, and every codec Python ships given as new @charset encoding through CSSCharsetRule.encoding / .cssText and CSSStyleSheet.encoding, and the rejected selector texts also in the (text, namespaces) argument form), on every reachable target of a fixed set of prior sheets and on detached objects (among them a selector, a selector list, a style rule and a style rule inside an @media rule that carry a prefix mapping of their own, with the selectors inside them as targets); after each call that '
+              'raised xml.dom.DOMException the snapshot (cssText of target / owner rule / sheet, rule types, property list, selector list, media list, namespaces of sheets and of selectors / selector lists / style rules; the serialisation also under every '
               'serializer preference at a non-default value, one at a time, under useMinified() and with all preferences flipped) equals the one taken before; '
               'objects created read-only (constructor flag, or sheets / rules / rule lists through _readonly) answer every mutating call with NoModificationAllowedErr and stay unchanged, '
               'in raising mode and in log-only mode (cssutils.log.raiseExceptions False)')
